@@ -381,8 +381,7 @@ class UnitGen:
             return
         self.emit('    {', kind='fnhead', fn=fnpath, src=src)
         self.verified_fns_with_body.append(fnpath)
-        if canary:
-            self.emit('        proof { assert(false); } // canary', kind='canary', fn=fnpath, src=src)
+        self._canary = (canary, src)
         self._emit_body(f, io)
         self.emit('    }', kind='fnhead', fn=fnpath, src=src)
 
@@ -424,6 +423,13 @@ class UnitGen:
             unwind_txt = ' '.join(f.unwind.text)
         body = io['body']
         base = '        '
+        # `hide(f);` statements must come first in the body: definitions the proof of this function does not need (query size)
+        hides = [] if 'nohide' in f.opts else list(f.module.hidedefault)
+        hides += f.opts.get('hide', '').split()
+        for h in hides:
+            self.emit(base + 'hide(%s);' % h, kind='proof', fn=fnpath, src=f.src)
+        if getattr(self, '_canary', (False, None))[0]:
+            self.emit('        proof { assert(false); } // canary', kind='canary', fn=fnpath, src=self._canary[1])
         for (t, l) in body:
             st = t.strip()
             ind = base + t[:len(t) - len(t.lstrip())]
